@@ -207,6 +207,9 @@ def c01(pid, tier, seed, selftest=False):
     for s in scenarios[:2] + scenarios[-2:]:
         rep.sample(s)
     runs = st.run_and_validate(rep, pid, "rt", scenarios, tpl, seed)
+    # 4. the same statement through the tool: kestrel encrypt | decrypt via files and pipes, fresh and re-used output paths
+    import cli_rt
+    cli_rt.run(rep, pid, tpl, seed, "C01", "key", thorough)
     return finish(rep, runs)
 
 
@@ -264,6 +267,8 @@ def c02(pid, tier, seed, selftest=False):
     for s in scenarios[:1] + scenarios[-3:]:
         rep.sample(s)
     runs = st.run_and_validate(rep, pid, "rt", scenarios, tpl, seed, nproc=16)
+    import cli_rt
+    cli_rt.run(rep, pid, tpl, seed, "C02", "pass", thorough)
     return finish(rep, runs)
 
 
@@ -361,16 +366,16 @@ def c03(pid, tier, seed, selftest=False):
     edits = 3 if thorough else 2
     check_model(rep, pid, "dec-mc", "MC_DecLoop",
                 st.dec_constants(cs=2, src="Src21", hdr="HdrSmall", edits=edits, shorts=0, splits=0),
-                st.DEC_INVARIANTS + ["WrongKeyReleasesNothing"],
+                st.DEC_INVARIANTS + ["WrongKeyReleasesNothing"] + st.DEC_REFINEMENT,
                 DEC_ACTIONS + ["AdvHdr", "AdvSwapHdr", "AdvTamper", "AdvFlag", "AdvLen", "AdvCtr", "AdvDelete", "AdvDup",
                                "AdvSwap", "AdvSplice", "AdvReplace", "AdvForge", "AdvTruncate", "AdvAppend"], workers=8)
     if thorough:
         check_model(rep, pid, "dec-mc-322", "MC_DecLoop",
                     st.dec_constants(cs=2, src="Src322", hdr="HdrSmall", edits=2, shorts=0, splits=0),
-                    st.DEC_INVARIANTS + ["WrongKeyReleasesNothing"], DEC_ACTIONS, workers=8)
+                    st.DEC_INVARIANTS + ["WrongKeyReleasesNothing"] + st.DEC_REFINEMENT, DEC_ACTIONS, workers=8)
         check_model(rep, pid, "dec-mc-0", "MC_DecLoop",
                     st.dec_constants(cs=2, src="Src0", hdr="HdrSmall", edits=2, shorts=0, splits=0),
-                    st.DEC_INVARIANTS + ["WrongKeyReleasesNothing"], DEC_ACTIONS, workers=8)
+                    st.DEC_INVARIANTS + ["WrongKeyReleasesNothing"] + st.DEC_REFINEMENT, DEC_ACTIONS, workers=8)
     if thorough or selftest:
         for v, inv in DEC_NEG:
             negative_variant(rep, pid, "neg-" + v, "MC_DecLoop",
@@ -380,6 +385,13 @@ def c03(pid, tier, seed, selftest=False):
     scenarios += dec_from_model(rep, pid, "adv-21", st.dec_constants(cs=2, src="Src21", hdr="HdrNone", edits=edits,
                                                                      shorts=0, splits=0),
                                 "Src21", [("chunks", "key", 1), ("chunks", "pass", 2)], variants=3 if thorough else 2)
+    # final chunks that are exactly full: one edit each (extension, truncation, forged record, ...) on every API
+    scenarios += dec_from_model(rep, pid, "adv-22", st.dec_constants(cs=2, src="Src22", hdr="HdrNone", edits=1,
+                                                                     shorts=0, splits=0),
+                                "Src22", [("chunks", "key", 1), ("chunks", "pass", 2)], variants=1)
+    scenarios += dec_from_model(rep, pid, "adv-22-api", st.dec_constants(cs=2, src="Src22", hdr="HdrSmall", edits=1,
+                                                                         shorts=0, splits=0),
+                                "Src22", [("key", "key", 2), ("pass", "pass", 3)], variants=1)
     scenarios += dec_from_model(rep, pid, "adv-0", st.dec_constants(cs=2, src="Src0", hdr="HdrNone", edits=1,
                                                                     shorts=0, splits=0),
                                 "Src0", [("chunks", "key", 1)], variants=2)
@@ -427,7 +439,10 @@ def c04(pid, tier, seed, selftest=False):
     thorough = tier == "thorough"
     check_model(rep, pid, "dec-mc", "MC_DecLoop",
                 st.dec_constants(cs=2, src="Src21", hdr="HdrSmall", edits=2 if thorough else 1, faults=1),
-                st.DEC_INVARIANTS + ["WrongKeyReleasesNothing"], DEC_ACTIONS + DEC_FAULT_ACTIONS, workers=8)
+                st.DEC_INVARIANTS + ["WrongKeyReleasesNothing"] + st.DEC_REFINEMENT, DEC_ACTIONS + DEC_FAULT_ACTIONS,
+                workers=8)
+    rep.notes.append("refinement: every step of DecLoop (adversarial file, faults, short reads, partial accepts) is a step of "
+                     "DecLoopInd under the projection ProjA/ProjAuth/... (TLC action property RefinesDecLoopInd)")
     if thorough or selftest:
         negative_variant(rep, pid, "neg-WriteBeforeVerify", "MC_DecLoop",
                          st.dec_constants(cs=2, src="Src21", hdr="HdrSmall", edits=1, shorts=0, splits=0,
@@ -450,6 +465,8 @@ def c04(pid, tier, seed, selftest=False):
     # every adversarial file of C03's exploration (two edits, incl. forged records), default schedule: D1 / D2 at every write
     scenarios += dec_from_model(rep, pid, "adv-21", st.dec_constants(cs=2, src="Src21", hdr="HdrNone", edits=2, shorts=0, splits=0),
                                 "Src21", [("chunks", "key", 1), ("chunks", "pass", 3)], variants=1)
+    scenarios += dec_from_model(rep, pid, "adv-22", st.dec_constants(cs=2, src="Src22", hdr="HdrNone", edits=1, shorts=0, splits=0),
+                                "Src22", [("chunks", "key", 1), ("chunks", "pass", 2)], variants=1)
     if thorough:
         scenarios += dec_from_model(rep, pid, "sched-322", st.dec_constants(cs=2, src="Src322", hdr="HdrNone", edits=1,
                                                                             faults=1, splits=1, shorts=1),
@@ -595,7 +612,7 @@ def c11(pid, tier, seed, selftest=False):
     rep.add_model("terms", tres, "byte-layout templates")
     thorough = tier == "thorough"
     check_model(rep, pid, "enc-mc", "MC_EncLoop", st.enc_constants(cs=2, maxlen=9 if thorough else 7, hdr="HdrSmall"),
-                st.ENC_INVARIANTS + ["ProjIndInv"], ENC_ACTIONS)
+                st.ENC_INVARIANTS + st.ENC_REFINEMENT, ENC_ACTIONS)
     check_model(rep, pid, "dec-mc", "MC_DecLoop", st.dec_constants(cs=2, src="Src322", hdr="HdrSmall", edits=0),
                 st.DEC_INVARIANTS, DEC_ACTIONS)
     if thorough or selftest:
